@@ -686,7 +686,8 @@ def kf_empty_flag_alloc(case):
 # ---------------------------------------------------------------------------------------------- C13: foreign images
 def gen_foreign_case(rng, cid, tier):
     """C13 focus: images a Java / C++ writer can emit for the generator's own picture of a filter (short form, long form
-    with the exact count, long form with the dirty marker -1, unused fields non-zero), deserialized by the crate; the
+    with the exact count, long form with the dirty marker -1, unused fields and undefined flag bits non-zero), deserialized by
+    the crate; the
     accessors, queries, re-serialization and further inserts / unions are judged against the Spec state of the image"""
     num_bits, nh, seed = pick_config(rng, tier)
     if num_bits > 16384:
@@ -725,6 +726,8 @@ def gen_foreign_case(rng, cid, tier):
         if rng.random() < 0.3:
             img[6:8] = [rng.randrange(256), rng.randrange(256)]     # unused fields carry junk
             img[20:24] = [rng.randrange(256) for _ in range(4)]
+        if rng.random() < 0.3:
+            img[3] = (rng.choice([0xfb, 0x01, 0x80, rng.randrange(256)]) & 0xfb) | (img[3] & 4)    # undefined flag bits set
         ops.append((rng.choice([11, 17]), [F] + img))
         ops += [(12, [F]), (8, [F]), (9, [F])]
         for x in dom + unseen:
